@@ -452,10 +452,10 @@ func lookupLeaf(d account.AccountDatabase, root common.Hash, a common.Address) *
 	return m[a]
 }
 
-func classify(d account.AccountDatabase, h []Op, x common.Address, global bool, accessorClass bool, label int) (sig string, detail string) {
+func classify(d account.AccountDatabase, h []Op, x common.Address, global bool, accessorClass bool, label int) (sig string, detail string, trigger string) {
 	rev, ok := marks(h)
 	if !ok {
-		return "malformed", ""
+		return "malformed", "", ""
 	}
 	first, last := -1, len(h)
 	if label != 0 {
@@ -471,7 +471,7 @@ func classify(d account.AccountDatabase, h []Op, x common.Address, global bool, 
 		}
 	}
 	if first < 0 {
-		return "no-reverted-operation", ""
+		return "no-reverted-operation", "", ""
 	}
 	P := newRunner(d)
 	P.run(h[:first])
@@ -555,7 +555,7 @@ func classify(d account.AccountDatabase, h []Op, x common.Address, global bool, 
 			s += "-then-read"
 		}
 	}
-	return s, subject
+	return s, subject, "reverted-" + groupList(rv)
 }
 
 func describe(h []Op) []string {
@@ -613,4 +613,99 @@ func describe(h []Op) []string {
 		out[i] = s
 	}
 	return out
+}
+
+// ---------------------------------------------------------------------------
+// Class of a root leak = which independent quirk of this code base the leak needs.
+// Each probe removes one ingredient from BOTH executions of the minimal witness;
+// the leak "needs" the smallest set of ingredients whose removal makes the judged
+// difference vanish. A leak that needs none of them (e.g. a mutator that forgot its
+// journal entry) is reported with its full feature description instead.
+
+type ingredient struct {
+	name  string
+	apply func(h []Op, fm finalMode) ([]Op, finalMode, bool)
+}
+
+var ingredients = []ingredient{
+	{"empty-account-deletion", func(h []Op, fm finalMode) ([]Op, finalMode, bool) {
+		// deleteEmptyObjects=false everywhere: no account is dropped for looking empty
+		out, ch := append([]Op(nil), h...), fm.D
+		for i := range out {
+			if out[i].D {
+				out[i].D, ch = false, true
+			}
+		}
+		fm.D = false
+		return out, fm, ch
+	}},
+	{"committed-state-read", func(h []Op, fm finalMode) ([]Op, finalMode, bool) {
+		var out []Op
+		for _, o := range h {
+			if o.K != "GetCommittedState" {
+				out = append(out, o)
+			}
+		}
+		return out, fm, len(out) != len(h)
+	}},
+	{"zero-amount-touch", func(h []Op, fm finalMode) ([]Op, finalMode, bool) {
+		var out []Op
+		for _, o := range h {
+			if o.K != "TouchFT" {
+				out = append(out, o)
+			}
+		}
+		return out, fm, len(out) != len(h)
+	}},
+	{"accountdb-reuse-after-finalise", func(h []Op, fm finalMode) ([]Op, finalMode, bool) {
+		// every Finalise/Commit in mid-history also re-opens a fresh AccountDB on the committed root
+		out, ch := append([]Op(nil), h...), false
+		for i := range out {
+			if out[i].K == "Finalise" || out[i].K == "Commit" {
+				out[i].K, ch = "Reopen", true
+			}
+		}
+		return out, fm, ch
+	}},
+}
+
+// needs returns the smallest set of ingredients (first in subset order) whose removal
+// makes differs() false; ok=false if no subset does.
+func needs(h []Op, fm finalMode, differs func([]Op, finalMode) bool) (string, bool) {
+	n := len(ingredients)
+	best, bestBits := "", n+1
+	for mask := 1; mask < 1<<uint(n); mask++ {
+		bits := 0
+		for i := 0; i < n; i++ {
+			if mask&(1<<uint(i)) != 0 {
+				bits++
+			}
+		}
+		if bits >= bestBits {
+			continue
+		}
+		hh, ff, all, name := h, fm, true, ""
+		for i := 0; i < n; i++ {
+			if mask&(1<<uint(i)) == 0 {
+				continue
+			}
+			var ch bool
+			hh, ff, ch = ingredients[i].apply(hh, ff)
+			if !ch {
+				all = false
+				break
+			}
+			if name != "" {
+				name += "+"
+			}
+			name += ingredients[i].name
+		}
+		if !all {
+			continue
+		}
+		if !differs(hh, ff) {
+			best, bestBits = name, bits
+		}
+	}
+	return best, best != ""
 }
